@@ -52,10 +52,6 @@ impl<'a> SubsetTable<'a> for ItemVariationStore<'a> {
         let max_region_count = regions.region_count();
         region_indices.remove_range(max_region_count..=u16::MAX);
 
-        if region_indices.is_empty() {
-            return Err(SerializeErrorFlags::SERIALIZE_ERROR_EMPTY);
-        }
-
         let mut region_map = IncBiMap::with_capacity(region_indices.len() as usize);
         for region in region_indices.iter() {
             region_map.add(region as u32);
